@@ -45,12 +45,18 @@ def main():
     # every sensor a case will need is constructed up front (construction order must not matter to readings)
     for b in ("foot", "inch", "meter", "centimeter"):
         if any(c["k"] == "sonar_pw" and c["b"] == b for c in spec["cases"]):
-            sp = MaxSonarEZPulseWidth(len(sonar_pw), U[b]) if b != "inch" else MaxSonarEZPulseWidth(len(sonar_pw))
+            try:
+                sp = MaxSonarEZPulseWidth(len(sonar_pw), U[b]) if b != "inch" else MaxSonarEZPulseWidth(len(sonar_pw))
+            except Exception:  # noqa  - reported per case below (the lazy path constructs it again)
+                continue
             sp.counter = StubCounter()
             sonar_pw[b] = sp
     for b in ("foot", "inch", "meter", "centimeter"):
         if any(c["k"] == "sonar_an" and c["b"] == b for c in spec["cases"]):
-            sa = MaxSonarEZAnalog(chan, U[b]) if b != "inch" else MaxSonarEZAnalog(chan)
+            try:
+                sa = MaxSonarEZAnalog(chan, U[b]) if b != "inch" else MaxSonarEZAnalog(chan)
+            except Exception:  # noqa
+                continue
             chan += 1
             sonar_an[b] = (sa, AnalogInputSim(sa.analog))
     out = []
